@@ -440,12 +440,35 @@ kop_parse(kop_t *op, const char *s, const char **end) {
   return 1;
 }
 
+/* history text: operations separated by blanks; "N*(op op ...)" repeats a group N times */
 int
 khist_parse(kop_t *ops, int max, const char *s) {
   int n = 0;
   while (*s) {
     while (*s == ' ') s++;
     if (!*s) break;
+    if (*s >= '0' && *s <= '9') {
+      const char *q = s;
+      int rep = 0, i, m, r;
+      char inner[600];
+      const char *close;
+      while (*q >= '0' && *q <= '9') { rep = rep * 10 + (*q - '0'); q++; }
+      if (q[0] == '*' && q[1] == '(' && (close = strchr(q, ')')) != NULL && (size_t)(close - q - 2) < sizeof(inner)) {
+        kop_t grp[32];
+        memcpy(inner, q + 2, (size_t)(close - q - 2));
+        inner[close - q - 2] = 0;
+        m = khist_parse(grp, 32, inner);
+        if (m < 0) return -1;
+        for (r = 0; r < rep; r++)
+          for (i = 0; i < m; i++) {
+            if (n >= max) return -1;
+            ops[n++] = grp[i];
+          }
+        s = close + 1;
+        continue;
+      }
+      return -1;
+    }
     if (n >= max || !kop_parse(&ops[n], s, &s)) return -1;
     n++;
   }
